@@ -3,7 +3,7 @@ use chan::e7;
 use vcore::proptest::prelude::*;
 use vcore::Level;
 
-const RULE: &str = "same history generator weighted towards overflow: capacities 1-8, send / try_send / async send (timeout 0|inf) sequences against a receiver that never runs, runs slowly or whose processor never returns (unresolved batch); the queue_length, queue_full_truncated and queue_full_blocked metrics are sampled after every operation; small-scope exhaustive mode; E7 with many sender threads against a worker parked on a harness latch. Oracle: pending (queue_length) equals the model and never exceeds capacity; send on full discards the whole older queue, keeps the new item, counts one truncation; try_send/async send on full hand back exactly the item (pending unchanged) and accept iff there is room; blocked sends are counted; all sender calls return while the worker is held on the latch. Non-trivial = at least one overflow.";
+const RULE: &str = "same history generator weighted towards overflow: capacities 1-8, send / try_send / async send (timeout 0|inf) sequences against a receiver that never runs, runs slowly or whose processor never returns (unresolved batch); the queue_length, queue_full_truncated and queue_full_blocked metrics are sampled after every operation; small-scope exhaustive mode; E7 with many sender threads against a worker parked on a harness latch; E7 async sends (emit_batcher::tokio::send, timeouts 0, 1-30 ms and the far end of Duration, 1-4 concurrent tasks, tokio::flush and try_send alongside) on current-thread / multi-thread / paused-clock runtimes against a receiver that is slow, whose processor never returns or that was never started, placed on its own thread or on the runtime of the senders. Oracle: pending (queue_length) equals the model and never exceeds capacity; send on full discards the whole older queue, keeps the new item, counts one truncation; try_send/async send on full hand back exactly the item (pending unchanged) and accept iff there is room; blocked sends are counted; all sender calls return while the worker is held on the latch; after the worker is released every item a fallible/async send reported as enqueued is delivered exactly once and no handed-back item is. Non-trivial = at least one overflow.";
 
 fn main() {
     vcore::run(
@@ -47,6 +47,15 @@ fn main() {
             // hand-back deadline after a lost wake-up (cases sleep for seconds; one per thread)
             s.require("deadline:handed-back-on-time", 2);
             s.gen("e7-blocking-send-deadline", s.n(2, 40), e7::deadline_batch, |c, cx| e7::check_deadline(c, cx));
+            // the ASYNC fallible send with finite non-zero timeouts (E2 only sees 0 and "never"): real runtimes
+            // (current-thread, multi-thread, paused clock), receiver slow / processor never returns / never started,
+            // on its own thread or on the senders' runtime; every item is enqueued (and later delivered) or handed back
+            s.require("async:finite-timeout-expired-item-handed-back", 150);
+            s.require("async:finite-timeout-expired-item-handed-back/multi-thread", 40);
+            s.require("async:finite-timeout-expired-item-handed-back/current-thread", 40);
+            s.require("async:finite-timeout-expired-item-handed-back/live-slow-receiver", 10);
+            s.require("async:some-send-waited-and-some-send-got-in", 50);
+            s.gen("e7-async-send-timeouts", s.n(2_400, 60_000), e7::async_case, |c, cx| e7::check_async(c, Prop::C09, cx));
             s.gen("e7-os-threads", s.n(3_000, 150_000), || e7::workload(8), |c, cx| e7::check(c, Prop::C09, cx));
         },
     )
